@@ -17,6 +17,7 @@
 package gnet
 
 import (
+	"errors"
 	"io"
 	"net"
 	"os"
@@ -153,7 +154,7 @@ func (c *conn) write(data []byte) (n int, err error) {
 
 	defer func() {
 		if err != nil {
-			_ = c.loop.close(c, os.NewSyscallError("write", err))
+			c.closeOnWriteError(os.NewSyscallError("write", err))
 		}
 	}()
 
@@ -202,7 +203,7 @@ func (c *conn) writev(bs [][]byte) (n int, err error) {
 
 	defer func() {
 		if err != nil {
-			_ = c.loop.close(c, os.NewSyscallError("writev", err))
+			c.closeOnWriteError(os.NewSyscallError("writev", err))
 		}
 	}()
 
@@ -249,6 +250,15 @@ loop:
 	}
 
 	return
+}
+
+// closeOnWriteError closes the connection after a failed write. The write error is what
+// the caller of Write/Writev gets back, so a Shutdown action returned from OnClose can't
+// travel up the call stack, it is handed to the event-loop as a shutdown signal instead.
+func (c *conn) closeOnWriteError(err error) {
+	if e := c.loop.close(c, err); errors.Is(e, errorx.ErrEngineShutdown) {
+		_ = c.loop.poller.Trigger(queue.HighPriority, func(any) error { return e }, nil)
+	}
 }
 
 type asyncWriteHook struct {
